@@ -273,6 +273,7 @@ func verif_clog_roundtrip(synced bool, iN, fN int64, root int, nSum [32]byte, iH
 // Real callers: (*leafNode).insert (on l itself when l.mut, else on a deep copy) with kvts from bulkInsert (every
 // element non-nil, len(K) <= maxKeySize, len(V) <= maxValueSize).
 //@ func (*leafNode).updateOnInsert
+//@   requires mutable: l.mut
 //@   requires t: l.t != nil
 //@   requires vals: forall(k, 0, len(l.values), l.values[k] != nil && len(l.values[k].timedValues) >= 1)
 //@   requires fits: forall(k, 0, len(l.values), 31 + len(l.values[k].key) + len(l.values[k].timedValues[0].Value) <= l.t.maxNodeSize)
